@@ -672,6 +672,15 @@ class Fn:
                 return k("None", ("opt", None))
         if p[-2:] == ["Poll", "Pending"]:
             return k("PPending", ("poll", None))
+        cname = p[-1] if (len(p) == 1 or p[:-1] == ["Self"]) else None
+        if cname and cname in s.tr.consts and cname not in s.env:
+            if cname in s.const_stack:
+                raise Unsupported("recursive constant " + cname)
+            s.const_stack.append(cname)
+            try:
+                return s.expr(s.tr.consts[cname], k)
+            finally:
+                s.const_stack.pop()
         if len(p) == 1:
             nm = p[0]
             if nm == "self":
@@ -683,6 +692,9 @@ class Fn:
 
     def e_Field(s, e, k, hint):
         b = e["base"]
+        if b["k"] == "MethodCall" and b["method"] in ("split_at_mut", "split_at") and e["member"] in ("0", "1") and len(b["args"]) == 1:
+            rng = {"k": "Range", "lo": None, "hi": b["args"][0], "inclusive": False} if e["member"] == "0" else {"k": "Range", "lo": b["args"][0], "hi": None, "inclusive": False}
+            return s.expr({"k": "Reference", "mut": b["method"] == "split_at_mut", "e": {"k": "Index", "e": b["recv"], "index": rng}}, k, hint)
         if s.is_self(e):
             return k("self", ("selfalias",))
         if s.is_self(b):
@@ -849,13 +861,25 @@ class Fn:
         return s.expr(e["e"], K(with_base))
 
     # if / match -------------------------------------------------------------------------------------------
-    def join(s, k, build, hint, base):
-        """build(kbranch) -> C.  If k is cheap, push it into the branches; otherwise make a join point."""
+    def join(s, k, build, hint, base, node=None):
+        """build(kbranch) -> C.  If k is cheap, push it into the branches; otherwise make a join point.
+        When a branch may `return` (or use `?`), the join carries inl = returned value / inr = the branch's value."""
         if k.cheap:
             return build(k)
         v = s.fresh(hint and base or base)
-        body = build(K(lambda a, t: (s._jt.__setitem__(0, t), Ret(a))[1], cheap=True))
-        return Bind(v, body, k(v, s._jt[0]))
+        may_ret = node is not None and s.returns(node) != "never"
+        if not may_ret:
+            body = build(K(lambda a, t: (s._jt.__setitem__(0, t), Ret(a))[1], cheap=True))
+            return Bind(v, body, k(v, s._jt[0]))
+        saved = (s.ret_mode, s.maybe_vars, s.in_valjoin, s.loop_depth)
+        s.ret_mode, s.maybe_vars, s.in_valjoin, s.loop_depth = "pre", (), True, 0
+        try:
+            body = build(K(lambda a, t: (s._jt.__setitem__(0, t), Ret("inr %s" % paren(a)))[1], cheap=True))
+        finally:
+            s.ret_mode, s.maybe_vars, s.in_valjoin, s.loop_depth = saved
+        r, x = s.fresh("r"), s.fresh("x")
+        return Bind(v, body, Match(v, [("inl %s" % r, s.return_raw(r)), ("inr %s" % x, k(x, s._jt[0]))]))
+    in_valjoin = False
     _jt = [None]
 
     def e_If(s, e, k, hint, stmt_fall=False):
@@ -869,14 +893,14 @@ class Fn:
                 th = s.scoped(lambda: s.seq(e["then"], 0, kb))
                 el = s.scoped(lambda: s.expr(e["else"], kb) if e["else"] else kb("tt", "unit"))
                 return If(a, th, el)
-            return s.join(k, build, hint, "ite")
+            return s.join(k, build, hint, "ite", node={"k": "Block", "stmts": [{"k": "Expr", "expr": {"k": "If", "cond": {"k": "Lit", "lit": {"k": "Bool", "value": True}}, "then": e["then"], "else": e["else"]}, "semi": False}]})
         return s.expr(c, K(with_c))
 
     def e_Match(s, e, k, hint, stmt_fall=False):
         def with_scrut(a, t):
             def build(kb):
                 return s.match_arms(a, t, e["arms"], kb)
-            return s.join(k, build, hint, "m")
+            return s.join(k, build, hint, "m", node={"k": "Match", "e": {"k": "Lit", "lit": {"k": "Bool", "value": True}}, "arms": e["arms"]})
         return s.expr(e["e"], K(with_scrut))
 
     def structural(s, p):
@@ -1237,13 +1261,14 @@ class Fn:
         raise Unsupported("call of " + key)
 
     post = None
+    const_stack = []
     loop_depth = 0        # 1 while translating statements that belong directly to a for / loop body (not to a nested join)
     backing = {}      # rb local made by ReadBuf::new(<alias of an outer ReadBuf>) -> (outer variable, view atom)
 
     def e_Await(s, e, k, hint):
         """the single await of an async fn: everything up to here is the prefix (it ends by yielding the awaited read future),
         the continuation is the suffix, a function of the future's result"""
-        if not s.cfg.get("async") or s.post is not None or s.ret_mode != "pre":
+        if not s.cfg.get("async") or s.post is not None or s.ret_mode != "pre" or s.in_valjoin:
             raise Unsupported("await outside the supported shape (one await, at statement level of the body / loop body)")
         def with_fut(a, t):
             if t != ("readfut",):
@@ -1277,8 +1302,21 @@ class Fn:
         return s.expr(e["e"], K(lambda a, t: s.expr(e["len"], K(lambda n, _t: k("repeat %s (Z.to_nat %s)" % (paren(a), paren(n)), ("array",))))))
 
     def e_Macro(s, e, k, hint):
-        if e["path"][-1] == "matches":
-            raise Unsupported("matches! (its pattern argument is not an expression)")
+        if e["path"][-1] == "matches" and len(e["args"]) == 2:
+            def to_pat(x):
+                if x["k"] == "Call" and x["func"]["k"] == "Path":
+                    return {"k": "TupleStruct", "path": x["func"]["path"], "elems": [to_pat(a) for a in x["args"]]}
+                if x["k"] == "Lit":
+                    return {"k": "Lit", "lit": x["lit"]}
+                if x["k"] == "Path":
+                    return {"k": "Path", "path": x["path"]} if x["path"][-1] in ("None",) or len(x["path"]) > 1 else {"k": "Ident", "name": x["path"][0], "by_ref": False, "mut": False, "sub": None}
+                if x["k"] == "Tuple":
+                    return {"k": "Tuple", "elems": [to_pat(a) for a in x["elems"]]}
+                raise Unsupported("matches! pattern")
+            tt_ = {"k": "Lit", "lit": {"k": "Bool", "value": True}}
+            ff_ = {"k": "Lit", "lit": {"k": "Bool", "value": False}}
+            arms = [{"pat": to_pat(e["args"][1]), "guard": None, "body": tt_}, {"pat": {"k": "Wild"}, "guard": None, "body": ff_}]
+            return s.e_Match({"k": "Match", "e": e["args"][0], "arms": arms}, k, hint)
         if e["path"][-1] == "write" and s.cfg.get("fmt_fn"):
             return s.write_macro(e, k)
         return s.stmt(e, lambda: k("tt", "unit"))
@@ -1417,6 +1455,20 @@ def lib_opt_map(s, a, t, al, k, hint):
     return s.join(k, build, hint, "m")
 
 
+def lib_ok_or(s, a, t, al, k, hint):
+    return s.expr(al[0], K(lambda e, te: k("match %s with Some v => Ok v | None => Err %s end" % (a, paren(e)), ("res", t[1], te))))
+
+
+def lib_or_else(s, a, t, al, k, hint):
+    c = al[0]
+    if not (c["k"] == "Closure" and not c["inputs"]):
+        raise Unsupported("Option::or_else with this closure")
+    def build(kb):
+        v = s.fresh("v")
+        return Match(a, [("Some %s" % v, kb("Some %s" % v, t)), ("None", s.scoped(lambda: s.expr(c["body"], kb)))])
+    return s.join(k, build, hint, "m", node=c["body"])
+
+
 def lib_result_map(s, a, t, al, k, hint):
     c = al[0]
     if c["k"] == "Closure" and len(c["inputs"]) == 1 and c["inputs"][0]["k"] == "Wild" and c["body"]["k"] == "Tuple" and not c["body"]["elems"]:
@@ -1505,6 +1557,8 @@ LIB = {
     ("alias", "copy_from_slice"): lib_alias_copy_from_slice,
     ("res", "map"): lib_result_map,
     ("opt", "map"): lib_opt_map,
+    ("opt", "ok_or"): lib_ok_or,
+    ("opt", "or_else"): lib_or_else,
 }
 
 
@@ -1560,6 +1614,10 @@ class Translator:
     def __init__(s, ast):
         s.files = {"/".join(f["file"].split("/")[-3:]): f["items"] for f in ast}
         s.free_fns = {}
+        s.consts = {}
+        for items in s.files.values():
+            for c in items.get("consts", []):
+                s.consts[c["name"]] = c["e"]
         s.reserved = set()
         s.from_impls = {}
         s.scan_from_impls()
